@@ -604,6 +604,7 @@ func minimize(fe *fontEntry, c Case) Case {
 			}
 		}
 		for _, f := range []func(d *Case){
+			func(d *Case) { d.Invisible = 0 }, func(d *Case) { d.NotFound = 0 },
 			func(d *Case) { d.Flags = 3 }, func(d *Case) { d.Cluster = 0 }, func(d *Case) { d.Lang = "" }, func(d *Case) { d.Script = "" },
 			func(d *Case) {
 				if d.Dir != 4 {
